@@ -10,7 +10,7 @@ REPLAY_CRATE = os.path.join(VERIF, 'replay')
 _built = {}
 
 # which replay-crate family can search a concrete counterexample for a property
-FAMILY = {'C05': 'io', 'C06': 'io', 'C07': 'io', 'C19': 'io', 'C02': 'conv', 'C01': 'fmt', 'C04': 'fmt', 'C03': 'client', 'C08': 'queue', 'C09': 'queue', 'C10': 'queue', 'C11': 'queue', 'C15': 'queue', 'C16': 'queue', 'C13': 'sink', 'C14': 'sink', 'C17': 'macros', 'C20': 'io+fmt', 'C12': 'queue'}
+FAMILY = {'C05': 'io', 'C06': 'io', 'C07': 'io', 'C19': 'io', 'C02': 'conv+fmt', 'C01': 'fmt', 'C04': 'fmt', 'C03': 'client', 'C08': 'queue', 'C09': 'queue', 'C10': 'queue', 'C11': 'queue', 'C15': 'queue', 'C16': 'queue', 'C13': 'sink', 'C14': 'sink', 'C17': 'macros', 'C20': 'io+fmt', 'C12': 'queue'}
 
 
 def slug(name):
